@@ -301,6 +301,13 @@ func cmdDump(args []string) int {
 	for _, g := range groupObligations(results) {
 		fmt.Printf("%-10s %-6s %s  [%d inst, %s, %s]\n", g.Status, g.Class, g.Name, len(g.Instances), g.Solver, fmtSecs(g.Seconds))
 		if g.Status != "discharged" {
+			var as []string
+			for _, o := range g.Instances {
+				if o.Result != nil {
+					as = append(as, fmt.Sprintf("%s@%s", o.Result.Answer, filepath.Base(o.Pos)))
+				}
+			}
+			fmt.Printf("           instances: %s\n", strings.Join(as, " "))
 			if o := g.firstFailing(); o != nil && o.Result != nil {
 				fmt.Printf("           %s: %s at %s\n", o.Result.Answer, o.Info, o.Pos)
 				if o.Result.Answer == "sat" {
